@@ -182,6 +182,19 @@ func tokenizeLine(line string) []wordToken {
 	stringChar := rune(0)
 	wordStart := -1
 	currentWord := strings.Builder{}
+	prev := rune(0)      // the character before ch
+	placeholder := false // the current word is the name of an @placeholder: one token, never a keyword
+	emit := func() {
+		if !placeholder {
+			words = append(words, wordToken{
+				text:   currentWord.String(),
+				column: wordStart + 1, // 1-indexed
+			})
+		}
+		currentWord.Reset()
+		wordStart = -1
+		placeholder = false
+	}
 
 	for i, ch := range line {
 		// Handle string literals - skip keywords inside strings
@@ -189,13 +202,9 @@ func tokenizeLine(line string) []wordToken {
 			inString = true
 			stringChar = ch
 			if wordStart >= 0 {
-				words = append(words, wordToken{
-					text:   currentWord.String(),
-					column: wordStart + 1, // 1-indexed
-				})
-				currentWord.Reset()
-				wordStart = -1
+				emit()
 			}
+			prev = ch
 			continue
 		}
 
@@ -204,6 +213,7 @@ func tokenizeLine(line string) []wordToken {
 				inString = false
 				stringChar = 0
 			}
+			prev = ch
 			continue
 		}
 
@@ -211,24 +221,18 @@ func tokenizeLine(line string) []wordToken {
 		if unicode.IsLetter(ch) || ch == '_' || (wordStart >= 0 && unicode.IsDigit(ch)) {
 			if wordStart < 0 {
 				wordStart = i
+				placeholder = prev == '@'
 			}
 			currentWord.WriteRune(ch)
 		} else if wordStart >= 0 {
-			words = append(words, wordToken{
-				text:   currentWord.String(),
-				column: wordStart + 1, // 1-indexed
-			})
-			currentWord.Reset()
-			wordStart = -1
+			emit()
 		}
+		prev = ch
 	}
 
 	// Don't forget the last word
 	if wordStart >= 0 {
-		words = append(words, wordToken{
-			text:   currentWord.String(),
-			column: wordStart + 1,
-		})
+		emit()
 	}
 
 	return words
